@@ -376,7 +376,9 @@ def danglingZero : Obs → Bool
   | .cnt _ _ _ _ _ d => d == 0
   | _ => true
 
-/-- Bound on egress rounds after which every entry of a fully closed connection must be gone. -/
+/-- Bound on egress rounds after which every entry of a fully closed connection must be gone: longer
+    than a full retransmit cycle `retx_threshold · (retx_max + 1)`, so also longer than any timer
+    built on the same counters can stay silent. -/
 def reclaimBound (cfg : Cfg) : Nat := (cfg.retxThreshold + 1) * (cfg.retxMax + 2) + 4
 
 def hostOfIpS : Ip → Option Nat
@@ -486,7 +488,7 @@ def c13Step (cfg : Cfg) (s : C13St) (e : Event) : C13St :=
     let s0 := if backlogOk obs then s else s.flag "more unaccepted connections than the listener's backlog"
     let s1 := if obs.all danglingZero then s0 else s0.flag "index entry points at a socket that no longer exists"
     let handleFree := s.liveListeners.isEmpty && s.liveConnecting.isEmpty && s.liveStreams.isEmpty && s.wire.isEmpty
-    if handleFree && (s.quiet ≥ cfg.retxThreshold + 1 || s.roundsIdle ≥ reclaimBound cfg) then
+    if handleFree && (s.quiet ≥ reclaimBound cfg || s.roundsIdle ≥ 6 * reclaimBound cfg) then
       if obs.all countsZero then s1
       else s1.flag "socket-table entries remain after every handle was closed and the network drained"
     else s1
